@@ -391,7 +391,7 @@ valid_batch = st.fixed_dictionaries({"items": st.lists(valid_case(max_n=24, max_
 def wide_case(draw):
     kernel = draw(st.sampled_from(list(KERNELS)))
     return {"kernel": kernel, "dtype": draw(st.sampled_from(KERNELS[kernel])), "n": draw(st.integers(1, 15)),
-            "d": draw(st.sampled_from([1023, 1024, 1025, 2048, 4099, 9000])), "seed": draw(st.integers(0, 2 ** 31 - 1)),
+            "d": draw(st.sampled_from([4096, 4099, 9000, 1024, 1025, 2048, 1023, 4095])), "seed": draw(st.integers(0, 2 ** 31 - 1)),
             "threads": draw(st.sampled_from([2, 3, 7, 16])), "xlayout": draw(st.sampled_from(["C", "F", "rowstride"]))}
 
 
@@ -431,7 +431,7 @@ def run_wide(case):
 CLAUSES = [
     Clause("values", valid_case(), run_values, quick=1600, thorough=24000),
     Clause("values_large", valid_case(max_n=400, max_d=33), run_values, quick=40, thorough=1600),
-    Clause("wide_rows", wide_case(), run_wide, quick=60, thorough=1200),
+    Clause("wide_rows", wide_case(), run_wide, quick=400, thorough=4000),
     Clause("invalid_raises", invalid_batch, run_invalid, quick=12, thorough=160),
 ]
 
